@@ -126,25 +126,17 @@ Proof. exact steane_bare_S_is_not_logical_S. Qed.
 Example C20_gate_prog_inhabited :
   Forall gate_instr [mkI "H" 0 true (map (fun q => [q]) [0; 2]); mkI "S" 1 true (map (fun q => [q]) [1]);
                      mkI "CX" 2 true (map (fun ab => [fst ab; snd ab]) [(0, 1)])].
-Proof.
-  repeat constructor; cbn; try tauto; try discriminate;
-  repeat (match goal with |- ~ _ => intro HH; cbn in HH; intuition discriminate end).
-Qed.
+Proof. exact gate_prog_example. Qed.
+(* M 0 1 2; DETECTOR rec[-1]; DETECTOR rec[-3] rec[-2]; OBSERVABLE_INCLUDE(..) rec[-2] on the Steane code *)
 Example C20_tail_inhabited :
-  let tail := [mkI "M" 0 true [[0]; [1]; [2]]; mkI "DETECTOR" 1 true [[-1]]; mkI "DETECTOR" 2 true [[-3]; [-2]];
-               mkI "OBSERVABLE_INCLUDE" 3 true [[-2]]]%string in
-  forallb wf_instr tail = true /\ all_some (lresolve [] tail) /\
-  presolve [] (transversal steane tail) =
+  forallb wf_instr example_tail = true /\ all_some (lresolve [] example_tail) /\
+  presolve [] (transversal steane example_tail) =
     [("DETECTOR"%string, 1, map Some [14; 15; 16; 17]); ("DETECTOR"%string, 1, map Some [15; 16; 18; 19]);
      ("DETECTOR"%string, 1, map Some [16; 17; 18; 20]);
      ("DETECTOR"%string, 2, map Some [0; 1; 2; 3; 7; 8; 9; 10]); ("DETECTOR"%string, 2, map Some [1; 2; 4; 5; 8; 9; 11; 12]);
      ("DETECTOR"%string, 2, map Some [2; 3; 4; 6; 9; 10; 11; 13]);
      ("OBSERVABLE_INCLUDE"%string, 3, map Some [7; 8; 12])].
-Proof.
-  cbv zeta. split; [vm_compute; reflexivity|]. split; [|vm_compute; reflexivity].
-  intros a Ha o Ho. vm_compute in Ha.
-  repeat (destruct Ha as [<-|Ha]; [cbn in Ho; repeat (destruct Ho as [<-|Ho]; [discriminate|]); destruct Ho|]). destruct Ha.
-Qed.
+Proof. exact tail_example. Qed.
 (* the physics premises are not contradictory (trivial instance; their intended reading is the comment in Model/Encoder.v) *)
 Example C20_premises_consistent : forall e, PhysicsPremises e (fun _ _ => True) True (fun _ _ _ _ => True).
-Proof. intro e. unfold PhysicsPremises. repeat split. Qed.
+Proof. exact premises_consistent. Qed.
